@@ -60,8 +60,8 @@ pub fn run(cfg: &Cfg, rep: &mut Report) {
         return;
     }
     let directed = crate::mon::c04::directed_inputs();
-    let n = cfg.n(400, 12_000);
-    let n_valgrind = cfg.n(40, 600);
+    let n = cfg.n(400, 40_000);
+    let n_valgrind = cfg.n(40, 1_200);
     let have_valgrind = Command::new("valgrind").arg("--version").output().map(|o| o.status.success()).unwrap_or(false);
     if !have_valgrind {
         rep.inconclusive.push("valgrind not available".into());
